@@ -191,6 +191,64 @@ def run(ctx):
         mk = P.call_sites(Q, lambda k, t: k.endswith('::snapshot'))
         ctx.ob('C17.L4', q, 'exactly one snapshot is taken', len(mk) == 1, snapshots=len(mk))
 
+    # ---- L6 (F50) the two writers of a transaction record exclude each other -------------------------------------------------
+    # add_fetched_tx (light-client handler thread) decides on the stored record whether it writes a placeholder record;
+    # filter_block (sync handler thread / RPC thread) writes the record with the real index.  Both hold Storage::tx_record_lock
+    # from before their first read of the record to their commit.
+    for fn in ('Storage::add_fetched_tx', 'Storage::filter_block'):
+        B = ctx.body(fn)
+        cfg = P.cfg(B)
+        locks = [(b, t) for b, k, t in P.call_keys(B) if k.endswith('Mutex::lock')]
+        commits = P.call_sites(B, 'Batch::commit')
+        reads = P.call_sites(B, 'Storage::get_transaction') + [x for c in P.closures_of(B) for x in []]
+        ok = bool(locks) and bool(commits)
+        if ok:
+            lb = locks[0][0]
+            ok = all(cfg.dominates(lb, cb) for cb, _ in commits) and all(cfg.dominates(lb, rb) for rb, _ in reads)
+            # the guard is alive until the commit: no drop of the guard local can reach a commit
+            gl = None
+            du_ = __import__('engine.defuse', fromlist=['DefUse']).DefUse(B)
+            for b2, k2, t2 in P.call_keys(B):
+                if k2.endswith('Result::expect') or k2.endswith('Result::unwrap'):
+                    if any(o[0] == 'call' and o[1].endswith('Mutex::lock') for o in du_.origins(t2.args[0])):
+                        gl = t2.dest.strip()
+            drops = [bid for bid, blk in B.blocks.items() if not blk.cleanup and blk.term.kind == 'drop' and gl and blk.term.place.strip() == gl]
+            if gl is None:
+                ok = False
+            for d in drops:
+                if any(cb in cfg.reachable_from(cfg.succ[d]) for cb, _ in commits):
+                    ok = False
+        ctx.ob('C17.L6', fn, 'the transaction record is read and written under Storage::tx_record_lock', ok, locks=len(locks),
+               failing_history=None if ok else 'thread A add_fetched_tx(T) reads "no record", thread B filter_block commits (T, real index), A writes (T, u32::MAX): '
+               'when the cell of T is spent the delete key is built from u32::MAX, the spent cell stays live; no serial order gives that')
+    # ---- L7 (F51) the blocks-proof request slot of a peer is checked and set in one critical section -------------------------
+    L7 = Locks(P)
+    prot_any, wit_any = L7.protected('L_mb', None)
+    nslot = 0
+    for b in P.bodies:
+        if b.promoted is not None:
+            continue
+        for bid, k, t in P.call_keys(b):
+            if k != 'Peers::update_blocks_proof_request':
+                continue
+            # clearing the slot (None) is not a registration
+            arg = t.args[2] if len(t.args) > 2 else ''
+            if re.search(r'Option::<.*>::None', ' '.join(s_.rhs for blk in b.blocks.values() for s_ in blk.stmts
+                                                        if s_.kind == 'assign' and s_.lhs.strip() == arg.replace('move ', '').strip())):
+                continue
+            nslot += 1
+            held = bool(L7.held_at(b, bid, 'L_mb', None)) or L7._last_body_protected(b, bid)
+            ctx.ob('C17.L7', b.name, 'a blocks-proof request is registered for an idle peer under the matched-blocks lock', held, at=t.span,
+                   failing_history=None if held else 'fetch_headers_txs (light-client thread) and prove_or_download_matched_blocks (filter thread) both find the slot of peer P '
+                   'empty, both send GetBlocksProof, one registration is overwritten: the answer to it is UnexpectedResponse and the honest peer is banned')
+    ctx.floor('C17.L7', 'registrations of a blocks-proof request', nslot, 2)
+    # ---- (F58) readers see index and tip of one point in time also during a fork switch -----------------------------------------
+    RB = ctx.body('Storage::rollback_to_block')
+    tip_in_batch = bool(P.const_uses(RB, 'LAST_STATE_KEY'))
+    ctx.ob('C17.L4', 'LightClientProtocol::commit_prove_state', 'the fork rollback and the new tip are one atomic write', tip_in_batch,
+           failing_history=None if tip_in_batch else 'get_cells_capacity takes its snapshot between rollback_to_block (own batch) and update_last_state: it returns the '
+           'rolled-back capacity together with the tip of the abandoned branch, a pair that exists in no serial order')
+
 
 def find_cycle(graph):
     color = {}
